@@ -221,14 +221,58 @@ def models_tie(rep, hbin, seed):
     return ok, rows
 
 
+ITER_FAIL = {"1": "PreOrderIter order", "2": "PostOrderIter items (label, index, child_indices)",
+             "3": "RtlPostOrderIter items", "4": "VerbosePreOrderIter first yields / indices", "5": "VerbosePreOrderIter number of yields"}
+
+
+def iters_tie(rep, hbin, seed):
+    """iter/tree.rs iterators (through Miniscript and the concrete Policy) and the taproot tree builder
+    (through Tr::from_str) vs the Coq models, compared inside Coq"""
+    tdir = os.path.join(vlib.COQ, "Tables")
+    p = vlib.sh([hbin, "robust", "iters", str(seed)], timeout=600)
+    if p.returncode != 0:
+        raise RuntimeError("robust iters failed: " + p.stderr[-1500:])
+    open(os.path.join(tdir, "RobustIterCasesGen.v"), "w").write(p.stdout)
+    m = re.search(r"ITERS iter=(\d+) \(miniscript (\d+), policy (\d+)\) tap=(\d+)", p.stderr)
+    rows = [int(x) for x in m.groups()] if m else [0, 0, 0, 0]
+    c1 = vlib.coqc("Tables/RobustIterCasesGen.v")
+    if c1.returncode != 0:
+        raise RuntimeError("RobustIterCasesGen.v does not compile: " + c1.stderr[-1500:])
+    c2 = vlib.coqc("Tables/RobustIterCasesCheck.v")
+    flat = re.sub(r"\s+", " ", c2.stdout)
+    ok = c2.returncode == 0 and "= ([], []) : list (N * list N)" in flat
+    mc = re.search(r"= \((\d+)%nat, (\d+)%nat, (\d+)%nat, (\d+)%nat\)", flat)
+    info = {"iterator_trees": rows[0], "from_miniscript": rows[1], "from_concrete_policy": rows[2], "taproot_shapes": rows[3],
+            "tree_nodes": int(mc.group(2)) if mc else 0, "taproot_shapes_rejected_as_too_deep": int(mc.group(4)) if mc else 0,
+            "all_equal_inside_coq": ok}
+    if not ok:
+        mm = re.search(r"= \((.*)\) : list \(N \* list N\)", flat)
+        body = (mm.group(1) if mm else (c2.stderr or c2.stdout))[-3000:]
+        bad_iter = re.findall(r"\((\d+), \[([0-9; ]*)\]\)", body.split("], [")[0] if "], [" in body else body)
+        what = sorted({ITER_FAIL.get(c.strip(), c.strip()) for _, cs in bad_iter for c in cs.split(";") if c.strip()})
+        # a taproot row on which the IMPLEMENTATION panics (code 2) is a failing input of the property itself
+        impl_panics = re.findall(r"\((\(?T[LB][^,]*(?:\([^)]*\))*[^,]*), \(2, \[\]\)", body)
+        found = bool(re.search(r", \(2, \[\]\), \(", body)) or bool(impl_panics)
+        rep.violation("iters-tie", "the compiled code and the Coq models of iter/tree.rs / TapTreeBuilder disagree: %s%s" % (
+                          ("iterator rows %s differ in: %s; " % ([int(i) for i, _ in bad_iter][:10], ", ".join(what))) if bad_iter else "", body[:1200]),
+                      {"property": "C11", "broken_tie": "Tables/RobustIterCasesCheck.v: iter_mismatches = ([], [])",
+                       "differing (iterator row index, failed comparisons) / (taproot shape, implementation, model)": body,
+                       "failed_comparisons": what,
+                       "note": "taproot rows are (shape, (code, leaf depths)) with code 0 = Err, 1 = Ok, 2 = panic; a row whose implementation code is 2 is an input on which Tr::from_str panics: tr(KI,<shape with pk(Kn) leaves>)",
+                       "replay": "python3 tools/check.py C11"}, found_input=found)
+    return ok, info
+
+
 def run(rep, tier, seed, replay):
     hbin = vlib.build_harness()
     if replay:
         return run_replay(rep, hbin, replay)
     ok, thms = vlib.proof_gates(rep, "C11")
     tie_ok, tie_rows = (False, [0, 0, 0, 0])
+    it_ok, it_info = (False, {})
     if ok:
         tie_ok, tie_rows = models_tie(rep, hbin, seed)
+        it_ok, it_info = iters_tie(rep, hbin, seed)
 
     # ---- panic-site inventory
     new, gone, cur, old = panic_sites.diff(vlib.REPO)
@@ -289,12 +333,14 @@ def run(rep, tier, seed, replay):
     unrep_keys = {u["key"] for u in unreproduced}
     clean = sum(1 for name in classes
                 if not any(f["class"] == name and f["key"] not in known_keys and f["key"] not in unrep_keys for f in fails))
-    obligations = len(thms) + 1 + 1 + n_classes
-    discharged = (len(thms) if ok else 0) + (1 if tie_ok else 0) + 1 + clean
+    obligations = len(thms) + 2 + 1 + n_classes
+    discharged = (len(thms) if ok else 0) + (1 if tie_ok else 0) + (1 if it_ok else 0) + 1 + clean
     rep.coverage.update({
         "obligations": obligations, "discharged": discharged,
-        "obligation_kinds": "%d theorems of Properties/C11.v + model/code tie inside Coq + inventory comparison + one 'no unknown failure' obligation per entry-point class (%d)" % (len(thms), n_classes),
+        "obligation_kinds": "%d theorems of Properties/C11.v + 2 model/code ties inside Coq (RobustCasesCheck, RobustIterCasesCheck) + inventory comparison + one 'no unknown failure' obligation per entry-point class (%d)" % (len(thms), n_classes),
+        "iterator_and_taptree_tie": it_info,
         "checker_cmd": "make -C coq; coqc Properties/C11.v; verif-harness robust models | coqc Tables/RobustCasesGen.v Tables/RobustCasesCheck.v; "
+                       "verif-harness robust iters | coqc Tables/RobustIterCasesGen.v Tables/RobustIterCasesCheck.v; "
                        "tools/panic_sites.py diff; verif-harness robust all <seed> <tier> --no-shrink",
         "trusted_base": vlib.TRUSTED_BASE_COMMON + [
             "harness/src/robust*.rs: supervisor, guards (catch_unwind, wall clock, counting allocator, thread stack), generators, shrinker",
@@ -337,6 +383,7 @@ def run_replay(rep, hbin, path):
         ok, thms = vlib.proof_gates(rep, "C11")
         if ok:
             models_tie(rep, hbin, rep.seed)
+            iters_tie(rep, hbin, rep.seed)
         return
     line = obj["input_line"]
     cls = obj["class"]
